@@ -36,6 +36,7 @@ type SpecEnv struct {
 	Cur   HeapView
 	Old   HeapView
 	Next0 string // allocation counter at function entry (for fresh())
+	Fuel  string // fuel term passed to recursive spec functions (inside their own definitions)
 }
 
 func (e *SpecEnv) clone() *SpecEnv {
@@ -581,11 +582,18 @@ func (e *SpecEnv) evalCall(x SCall) SV {
 			return SV{Term: "(slen " + v.Term + ")", Typ: intT}
 		case *types.Basic:
 			return SV{Term: "(Str_len " + v.Term + ")", Typ: intT}
+		case *types.Map:
+			return SV{Term: e.G.mapLen(v.Typ, v.Term, e.Cur), Typ: intT}
 		}
 		e.fail("len of %v", v.Typ)
 	case "cap":
 		v := arg(0)
 		return SV{Term: "(scap " + v.Term + ")", Typ: intT}
+	case "deepcopy":
+		// deepcopy(a, b): a is a structurally equal copy of b that shares no pointer or backing array with
+		// anything that existed at function entry; expanded from the Go type (XMLName fields excluded).
+		a, b := arg(0), arg(1)
+		return SV{Term: e.deepcopy(a, b, nil, 0), Typ: boolT}
 	case "allocBound":
 		// every array/object id allocated so far is below this bound
 		return SV{Term: e.Cur.Next(), Typ: intT}
@@ -625,7 +633,14 @@ func (e *SpecEnv) evalCall(x SCall) SV {
 	case "has":
 		m, k := arg(0), arg(1)
 		dom, _, _, _ := e.G.TE.MapHeaps(m.Typ)
-		return SV{Term: fmt.Sprintf("(select (select %s %s) %s)", e.Cur.Heap(dom), m.Term, k.Term), Typ: boolT}
+		return SV{Term: fmt.Sprintf("(and (not (= %s nil)) (select (select %s %s) %s))", m.Term, e.Cur.Heap(dom), m.Term, k.Term), Typ: boolT}
+	case "seen":
+		// seen(k): key k has been produced by the enclosing range-over-map loop
+		sv, ok := e.Vars["#seen"]
+		if !ok {
+			e.fail("seen() outside a range-over-map loop")
+		}
+		return SV{Term: fmt.Sprintf("(select %s %s)", sv.Term, arg(0).Term), Typ: boolT}
 	case "typeIs":
 		v := arg(0)
 		id, ok := x.Args[1].(SStrLit)
@@ -708,4 +723,60 @@ func (e *SpecEnv) locOf(v SV) *LV {
 	}
 	e.fail("not a struct location")
 	return nil
+}
+
+
+var deepcopyVarCtr int
+
+// deepcopy expands the structural-copy predicate for two values of the same static type.
+func (e *SpecEnv) deepcopy(a, b SV, stack []types.Type, depth int) string {
+	t := a.Typ
+	if a.Loc != nil {
+		t = typeAtPath(a.Loc.Root, a.Loc.Path)
+	}
+	for _, s := range stack {
+		if types.Identical(s, t) {
+			e.fail("deepcopy over recursive type %v", t)
+		}
+	}
+	fieldsOf := func(av, bv SV, st types.Type) string {
+		var parts []string
+		str := st.Underlying().(*types.Struct)
+		for i := 0; i < str.NumFields(); i++ {
+			f := str.Field(i)
+			if f.Name() == "XMLName" {
+				continue
+			}
+			if _, isA := f.Type().Underlying().(*types.Array); isA {
+				continue
+			}
+			fa, fb := e.selectField(av, f.Name()), e.selectField(bv, f.Name())
+			parts = append(parts, e.deepcopy(fa, fb, append(stack, t), depth+1))
+		}
+		if len(parts) == 0 {
+			return "true"
+		}
+		return "(and " + strings.Join(parts, " ") + ")"
+	}
+	if a.Loc != nil { // inline struct
+		return fieldsOf(a, b, t)
+	}
+	switch u := t.Underlying().(type) {
+	case *types.Pointer:
+		if !isStruct(u.Elem()) {
+			e.fail("deepcopy of pointer to %v", u.Elem())
+		}
+		return fmt.Sprintf("(and (= (= %s nil) (= %s nil)) (=> (not (= %s nil)) (and (not (alloc %s %s)) %s)))", a.Term, b.Term, a.Term, a.Term, e.Next0, fieldsOf(a, b, u.Elem()))
+	case *types.Slice:
+		deepcopyVarCtr++
+		iv := fmt.Sprintf("q_dc%d", deepcopyVarCtr)
+		ia := e.index(a, SV{Term: iv, Typ: types.Typ[types.Int]})
+		ib := e.index(b, SV{Term: iv, Typ: types.Typ[types.Int]})
+		body := e.deepcopy(ia, ib, append(stack, t), depth+1)
+		return fmt.Sprintf("(and (= (slen %s) (slen %s)) (=> (> (slen %s) 0) (>= (sarr %s) %s)) (forall ((%s Int)) (! (=> (and (<= 0 %s) (< %s (slen %s))) %s) :pattern ((selem %s %s)))))", a.Term, b.Term, a.Term, a.Term, e.Next0, iv, iv, iv, a.Term, body, a.Term, iv)
+	case *types.Basic:
+		return fmt.Sprintf("(= %s %s)", a.Term, b.Term)
+	}
+	e.fail("deepcopy of %v not supported", t)
+	return ""
 }
